@@ -42,11 +42,20 @@ def comp_of(k):
     import jaxley.channels as C
 
     c = J.Compartment()
-    c.set("radius", [1.0, 0.6, 1.7, 0.9, 2.3][k])
-    c.set("length", [10.0, 14.0, 6.0, 22.0, 8.0][k])
-    c.set("axial_resistivity", [5000.0, 900.0, 2500.0, 400.0, 1500.0][k])
-    c.set("capacitance", [1.0, 0.8, 1.4, 1.1, 0.7][k])
-    c.set("v", [-70.0, -66.5, -73.25, -61.75, -68.0][k])
+    c.set("radius", [1.0, 0.6, 1.7, 0.9, 2.3, 1.3][k])
+    c.set("length", [10.0, 14.0, 6.0, 22.0, 8.0, 12.0][k])
+    c.set("axial_resistivity", [5000.0, 900.0, 2500.0, 400.0, 1500.0, 3000.0][k])
+    c.set("capacitance", [1.0, 0.8, 1.4, 1.1, 0.7, 1.2][k])
+    c.set("v", [-70.0, -66.5, -73.25, -61.75, -68.0, -57.5][k])
+    if k == 5:
+        # two user channels coupled through a state, inserted in NON-alphabetical order (Zeta first): the order in which a module
+        # updates its channels is the order of insertion, and assembling must not change it
+        from vf import models
+
+        zeta, alpha = models.coupled_channels()
+        c.insert(zeta)
+        c.insert(alpha)
+        c.insert(C.Leak())
     if k == 1:
         c.insert(C.HH())
         c.set("HH_gNa", 0.09)
@@ -306,6 +315,15 @@ def explore(ctx):
     for r in ((2,) if quick else (2, 3)):
         for tup in itertools.product(range(len(CELL_CATALOGUE)), repeat=r):
             descs.append({"kind": "net", "cells": [dict(parents=CELL_CATALOGUE[i]["parents"], branches=[list(b) for b in CELL_CATALOGUE[i]["branches"]]) for i in tup]})
+    # compartment 5 (state-coupled user channels): alone, in branches, in a cell next to other channels, in networks in both orders
+    descs.append({"kind": "comp", "k": 5})
+    for ks in ([5], [5, 0], [1, 5], [5, 5]):
+        descs.append({"kind": "branch", "ks": ks})
+    descs.append({"kind": "cell", "parents": [-1, 0], "branches": [[5, 0], [2]]})
+    descs.append({"kind": "cell", "parents": [-1, 0, 0], "branches": [[1, 0], [5], [3, 4]]})
+    for cells in ([{"parents": [-1, 0], "branches": [[5, 0], [2]]}, {"parents": [-1], "branches": [[1, 0]]}],
+                  [{"parents": [-1], "branches": [[1, 0]]}, {"parents": [-1, 0], "branches": [[5, 0], [2]]}]):
+        descs.append({"kind": "net", "cells": cells})
     ctx.note("modules", len(descs))
     items = [{"descs": descs[i:i + 2]} for i in range(0, len(descs), 2)]
     ctx.map("work", items)
